@@ -1,6 +1,7 @@
 import Fuota.Model.Recon
 import Fuota.Spec.Gf2
 import Fuota.Props.C02
+import Fuota.Lemmas.ReconStep
 /-!
 # C09 — the reconstructor honours the write-once storage contracts
 
@@ -11,12 +12,28 @@ they are covered by the correspondence check (the harness' stores monitor every 
 namespace Fuota.C09
 open Fuota.Recon Fuota.Gf2 Fuota.C02
 
+/-- data-store call of index `m` -/
 def isDStore (m : Nat) : Call → Bool | .dStore m' _ => m' == m | _ => false
+/-- parity-store call of index `m` -/
 def isPStore (m : Nat) : Call → Bool | .pStore m' _ => m' == m | _ => false
+/-- matrix-row store call of index `m` -/
 def isMSet (m : Nat) : Call → Bool | .mSet m' _ => m' == m | _ => false
 
-/- TO PROVE (statements fixed):
+/-- same predicate as the one used in the lemmas -/
+theorem isDStore_eq (m : Nat) : isDStore m = isDStoreB m := by
+  funext c; cases c <;> rfl
+/-- same predicate as the one used in the lemmas -/
+theorem isPStore_eq (m : Nat) : isPStore m = isPStoreB m := by
+  funext c; cases c <;> rfl
+/-- same predicate as the one used in the lemmas -/
+theorem isMSet_eq (m : Nat) : isMSet m = isMSetB m := by
+  funext c; cases c <;> rfl
 
+/-- **C09.** In every fault-free run (same space of runs as C02) the storage-call log shows: each data, parity and
+matrix index is stored at most once; a stored matrix row has its own bit set, no higher bit, and (like every stored
+parity block) an index below both advertised capacities; a matrix row is written immediately after the parity block
+of the same index; every read is of an index stored earlier; data indices are below `n`; and once `Done` is
+reported every one of the `n` data indices has been stored exactly once. -/
 theorem contract_log (V : Variant) (n bs vbits numRows : Nat) (x P : Nat → Nat) (hP : Contract n P)
     (is : List Nat) :
     let r := run V n bs vbits numRows x P is
@@ -36,7 +53,53 @@ theorem contract_log (V : Variant) (n bs vbits numRows : Nat) (x P : Nat → Nat
     (∀ pre post m, log = pre ++ Call.mRow m :: post → ∃ row, Call.mSet m row ∈ post) ∧
     -- data indices are in range, and by the time Done is reported all n have been stored exactly once
     (∀ m d, Call.dStore m d ∈ log → m < n) ∧
-    (∀ b, r.2.getLast? = some (Res.done b) → ∀ m, m < n → (log.filter (isDStore m)).length = 1)
--/
+    (∀ b, r.2.getLast? = some (Res.done b) → ∀ m, m < n → (log.filter (isDStore m)).length = 1) := by
+  intro r log
+  obtain ⟨hI, _, hlast⟩ := run_inv V n bs vbits numRows x P hP is
+  have hC := hI.core
+  have hcap := hC.hcap
+  refine ⟨?_, ?_, ?_, ?_, ?_, ?_, ?_, ?_, ?_, ?_, ?_⟩
+  · intro m
+    rw [isDStore_eq, ← List.countP_eq_length_filter, hI.cntD m]
+    split <;> omega
+  · intro m
+    rw [isPStore_eq, ← List.countP_eq_length_filter, hC.hcntP m]
+    split <;> omega
+  · intro m
+    rw [isMSet_eq, ← List.countP_eq_length_filter, hC.hcntM m]
+    split <;> omega
+  · intro m row hm
+    obtain ⟨h1, h2, h3⟩ := hC.hlogM m row hm
+    exact ⟨h1, h2, by omega, by omega⟩
+  · intro m d hm
+    have := hC.hlogP m d hm
+    exact ⟨by omega, by omega⟩
+  · intro pre post m row e
+    exact LogOK_split pre _ post _ hC.hlogOK e
+  · intro pre post m e
+    exact LogOK_split pre _ post _ hC.hlogOK e
+  · intro pre post m e
+    exact LogOK_split pre _ post _ hC.hlogOK e
+  · intro pre post m e
+    exact LogOK_split pre _ post _ hC.hlogOK e
+  · intro m d hm
+    exact (hC.hlogD m d hm).1
+  · intro b hb m hm
+    have hc := hlast b hb
+    rw [isDStore_eq, ← List.countP_eq_length_filter, hI.cntD m, hc]
+    by_cases hl : (run V n bs vbits numRows x P is).1.l = 0
+    · have := (isComplete_stage1 _ hl).1 hc m (by rw [hC.hn]; exact hm)
+      simp [this]
+    · simp [hl, hm]
+
+/-- non-vacuity: in the crate's unit-test run (see C02) the log really contains parity and matrix stores, reads of
+all three stores, and four data stores -/
+example :
+    let P : Nat → Nat := fun m => if m < 4 then 2 ^ m else (m - 4) % 16
+    let x : Nat → Nat := fun m => 17 * (m + 1)
+    let log := (run ⟨true⟩ 4 1 8 8 x P [0, 2, 9, 10, 14]).1.log
+    (∀ m, m < 4 → (log.filter (isDStore m)).length = 1) ∧ (log.filter (isMSet 0)).length = 1 ∧
+      (log.filter (isPStore 1)).length = 1 ∧ Call.dGet 0 ∈ log ∧ Call.pGet 0 ∈ log ∧ Call.mRow 0 ∈ log := by
+  decide +kernel
 
 end Fuota.C09
